@@ -51,6 +51,13 @@ func event.linkTo
   opt twophase
   requires e != nil && unlocked(e.linkMutex)
   modifies everything
+  -- a previous link is unhooked from its (former) target before the event is hooked to the new one - or to none
+  ghost local stale Bool        -- the event still holds a hook to the previous target (ghost)
+  ghost after acquire: stale = (e.link != nil)
+  ghost before call Hook.Unhook: assert arg0 == e.link
+  ghost after call Hook.Unhook: stale = false
+  ghost before call eventInterface.Hook: assert !stale
+  ghost before unlock: assert !stale
   ensures unlocked(e.linkMutex)
 
 -- attaching a hook: its identifier - the key under which it lives in the ordered map of hooks - is drawn from the atomic
